@@ -197,9 +197,11 @@ class Strategy():
                     "Connector {} has neither associated costs nor schedule at {}"
                     .format(name, self.current_time))
 
-    def distribute_surplus_power(self):
+    def distribute_surplus_power(self, vehicles=None):
         """ Distribute surplus power to vehicles.
 
+        :param vehicles: vehicles to consider (default: all vehicles)
+        :type vehicles: dict
         :return: charging commands
         :rtype: dict
         """
@@ -208,7 +210,9 @@ class Strategy():
         gc_cheap = {
             gc_id: get_cost(1, gc.cost) <= self.PRICE_THRESHOLD
             for gc_id, gc in self.world_state.grid_connectors.items()}
-        for vehicle in self.world_state.vehicles.values():
+        if vehicles is None:
+            vehicles = self.world_state.vehicles
+        for vehicle in vehicles.values():
             cs_id = vehicle.connected_charging_station
             if cs_id is None:
                 continue
